@@ -222,7 +222,11 @@ def _one(rng, tier, big=False):
             pre.append({"sp": jobs[rng.randrange(len(jobs))]["sp"], "files": {"old.txt": b"old".hex()}})
         else:
             pre.append({"sp": typed({"unrelated": 1}), "files": {"old.txt": b"old".hex()}})
-    if u == "seps" and path["t"] in ("fmt", "call") and kind.startswith("tar"):
+    sepvals = []
+    for sp in sps:
+        all_values(sp, sepvals)
+    if (any(isinstance(v, str) and ("/" in v or v in (".", "..")) for v in sepvals)
+            and path["t"] in ("fmt", "call") and kind.startswith("tar")):
         kind = rng.choice(["dir", "zip"])     # inner '..' in tar member names: outside the model's domain
     strip = kind == "dir" and schema["t"] != "none" and rng.random() < 0.35
     return {"universe": u, "jobs": jobs, "asc": rng.random() < 0.6, "kind": kind, "path": path, "schema": schema,
@@ -583,10 +587,10 @@ def run_case(desc):
             calls = {}
             if i_run:
                 if desc["strip"] and mk == "dir":
-                    for dp, dn, fn in os.walk(target):
-                        for f in fn:
-                            if f == FN_SP:
-                                os.remove(os.path.join(dp, f))
+                    for dst in x_map:
+                        f = os.path.join(target, os.path.normpath(dst), FN_SP)
+                        if os.path.isfile(f):
+                            os.remove(f)
                 pyschema = None
                 if s["t"] == "auto_str":
                     if jobs:
